@@ -19,6 +19,7 @@ static std::vector<Thread*> g_pool; // worker threads (never includes the main t
 static std::map<void*, uint64_t> g_len_estimate; // region fn -> steps of its last execution (for PCT)
 static std::map<void*, SimLock> g_locks;
 static SimLock g_critical, g_atomic;
+static const bool g_trace_events = getenv("GMGSIM_TRACE") != nullptr; // replay aid: event log on stderr
 
 Thread* me()
 {
@@ -175,6 +176,9 @@ static inline void switch_to(Team* tm, Thread* from, Thread* to)
     uint64_t ev2[2] = {tm->region_id, ((uint64_t)from->tid << 32) | (uint64_t)to->tid};
     G.st.sched_fp   = fnv1a(G.st.sched_fp, ev2, sizeof ev2);
     tm->running    = to;
+    if (g_trace_events)
+        fprintf(stderr, "[sim] region#%llu switch t%d -> t%d at step %llu\n", (unsigned long long)tm->region_id, from->tid,
+                to->tid, (unsigned long long)tm->steps);
     sem_post(&to->sem);
     sem_wait(&from->sem);
 }
@@ -338,6 +342,9 @@ static void run_region(void (*fn)(void*), void* data, int req, bool exact, const
     if (n > rs.max_team)
         rs.max_team = n;
     uint64_t rid = ++G.region_counter;
+    if (g_trace_events)
+        fprintf(stderr, "[sim] region#%llu fn=%p requested=%d delivered=%d%s\n", (unsigned long long)rid, (void*)fn, req, n,
+                n < req && n >= 1 && req <= G.cfg.thread_limit && !(t->team || t->inline_depth) ? " (shortfall)" : "");
     {
         uint64_t ev[2] = {rid, (uint64_t)n};
         G.fp           = fnv1a(G.fp, ev, sizeof ev);
